@@ -3,6 +3,7 @@ package scn
 import (
 	"context"
 	"errors"
+	"time"
 
 	"github.com/aperturerobotics/util/ccall"
 	"github.com/aperturerobotics/util/zzverif/vsched"
@@ -51,6 +52,12 @@ func ccallBody(n int, withCancel bool, outcomes int) func() {
 		var cancel context.CancelFunc
 		if withCancel {
 			ctx, cancel = context.WithCancel(bg)
+			if n >= 2 && vsched.Choose(3) == 2 {
+				// the caller's context had a deadline that has already passed: reported like a cancellation
+				cancel()
+				ctx, cancel = context.WithDeadline(bg, time.Unix(1, 0))
+				vsched.CtrSet(c17Cancel, 1)
+			}
 		}
 		outs := make([]int, n)
 		fns := make([]ccall.CallConcurrentlyFunc, n)
@@ -70,7 +77,7 @@ func ccallBody(n int, withCancel bool, outcomes int) func() {
 				var err error
 				if o == fPark {
 					<-fctx.Done()
-					err = fctx.Err()
+					err = context.Canceled // (not fctx.Err(): under an expired caller context that would be DeadlineExceeded)
 				} else {
 					err = outcomeErr(o)
 				}
